@@ -19,6 +19,8 @@
 (*  kind "multiverify": `gemato verify p1 p2 ...`                           *)
 (*     [single: Seq(status of each path alone), status]                    *)
 (*     C07.ExitStatusMultiPath: status 0 iff every single status is 0      *)
+(*     C07.MultiPathKeepGoing: with -k the reports are the union of the     *)
+(*     single runs' reports                                                *)
 (***************************************************************************)
 EXTENDS UpdateRef, Json, IOUtils
 Trace == ndJsonDeserialize(IOEnv.TRACE_FILE)
@@ -59,6 +61,9 @@ Clauses(r) ==
         (IF ~r.line_ok \/ r.status # 0 THEN {"X03.HashCommandWrong"} ELSE {})
     ELSE IF r.kind = "multiverify" THEN
         (IF (r.status = 0) # (\A k \in DOMAIN r.single : r.single[k] = 0) THEN {"C07.ExitStatusMultiPath"} ELSE {})
+        \* keep-going over several paths reports what the runs of the single paths report together
+        \* (sorted sequences = bags); not judged when a run was cut short by a raised exception
+        \cup (IF "kmulti" \in DOMAIN r /\ ~r.kraised /\ r.kmulti # r.ksingle THEN {"C07.MultiPathKeepGoing"} ELSE {})
     ELSE {"X00.UnknownRecord"}
 
 Init == i \in 1..Len(Trace) /\ done = FALSE
